@@ -91,6 +91,10 @@ func checkGuarded(p *load.Program, r *kit.Report, rule string, funcs []*ssa.Func
 					var e map[string]bool
 					if entry != nil {
 						e = entry(f)
+					} else {
+						// unexported helpers that are only called directly: the locks held at every
+						// call site
+						e = entryLocks(p)[f]
 					}
 					li = kit.Lockset(f, e)
 				}
@@ -127,4 +131,16 @@ func checkGuarded(p *load.Program, r *kit.Report, rule string, funcs []*ssa.Func
 		}
 	}
 	return n
+}
+
+var entryLocksCache = map[*load.Program]map[*ssa.Function]map[string]bool{}
+
+// entryLocks: see kit.EntryLocks; computed once per program over both packages.
+func entryLocks(p *load.Program) map[*ssa.Function]map[string]bool {
+	if m, ok := entryLocksCache[p]; ok {
+		return m
+	}
+	m := kit.EntryLocks(pkgFuncs(p, R, H))
+	entryLocksCache[p] = m
+	return m
 }
